@@ -194,6 +194,8 @@ class ReedMullerDecoder(BaseBlockDecoder[ReedMullerCodeEncoder]):
         generator_rows = self.encoder.generator_matrix.to(torch.int).to(received.device)
 
         def decode_block(r_block):
+            # apply_blockwise passes (..., blocks, n): decode every block of every row
+            r_block = r_block.reshape(-1, self.code_length)
             batch_size = r_block.shape[0]
             decoded = torch.zeros(batch_size, self.code_dimension, dtype=torch.int, device=received.device)
             errors = torch.zeros_like(r_block) if return_errors else None
